@@ -321,6 +321,63 @@ func C06(p *engine.Prog, r *engine.Report) {
 				applyCalls = append(applyCalls, cc)
 			}
 		}
+		// the validation step extracted into a same-package helper: its success (true / nil error) is
+		// reached only behind ValidateTx==nil inside it; a test of its result then guards like the call
+		var helperTx []ssa.Value
+		for _, c := range engine.Calls(f) {
+			cc, ok := c.(*ssa.Call)
+			if !ok {
+				continue
+			}
+			h := cc.Call.StaticCallee()
+			if h == nil || h.Blocks == nil || h.Pkg != f.Pkg {
+				continue
+			}
+			hv := callsTo(h, "blockchain/validation.ValidateTx")
+			if len(hv) != 1 {
+				continue
+			}
+			hvc, isCall := hv[0].(*ssa.Call)
+			if !isCall || h.Signature.Results().Len() != 1 {
+				continue
+			}
+			hg := nilErrGuards(h, hvc)
+			good := len(hg) > 0
+			isBool := types.Identical(h.Signature.Results().At(0).Type(), types.Typ[types.Bool])
+			for _, ret := range engine.Returns(h) {
+				if isBool {
+					if b, isC := engine.ConstBool(ret.Results[0]); isC && !b {
+						continue
+					}
+				} else if retErrKind(ret) == "nonnil" {
+					continue
+				}
+				if !engine.OnlyThroughPassRet(h, ret, hg) {
+					good = false
+				}
+			}
+			if !good {
+				continue
+			}
+			if isBool {
+				vg = append(vg, guardsWhere(f, func(cond ssa.Value) (bool, bool, string) {
+					x, neg := stripNot(cond)
+					if x == ssa.Value(cc) {
+						return true, !neg, "validating helper returned true"
+					}
+					return false, false, ""
+				})...)
+			} else {
+				vg = append(vg, nilErrGuards(f, cc)...)
+			}
+			if par, ok := engine.Origin(hvc.Call.Args[1]).(*ssa.Parameter); ok {
+				for j, q := range h.Params {
+					if q == par && j < len(cc.Call.Args) {
+						helperTx = append(helperTx, cc.Call.Args[j])
+					}
+				}
+			}
+		}
 		// the tx passed to both must be the same loop element
 		for _, ac := range applyCalls {
 			okV := engine.OnlyThroughPass(f, ac.Block(), vg)
@@ -328,6 +385,11 @@ func C06(p *engine.Prog, r *engine.Report) {
 			same := false
 			for _, c := range callsTo(f, "blockchain/validation.ValidateTx") {
 				if engine.Origin(c.Common().Args[1]) == engine.Origin(ac.Call.Args[1]) {
+					same = true
+				}
+			}
+			for _, ht := range helperTx {
+				if engine.Origin(ht) == engine.Origin(ac.Call.Args[1]) {
 					same = true
 				}
 			}
